@@ -5,6 +5,9 @@ import os
 
 VERIF = os.path.dirname(os.path.dirname(os.path.abspath(__file__)))
 
+SRC = (" Decision-logic cores of the kernels are additionally TRANSLATED from the current source on every run (harness/kernels.py → Model/Generated/Kernels*.lean) and proved equal "
+       "to the model for all inputs (Properties/Src*.lean), so a changed kernel breaks a proof obligation.")
+
 TB = ("Trusted: Lean 4.33 kernel; axioms propext/Classical.choice/Quot.sound only (audited per theorem on every run; no sorry/native_decide/bv_decide); "
       "the hand-written model is tied to /repo by the differential correspondence run of this check (harness, driver glue, translator); "
       "Numba/NumPy/CPython/libm/OS are modelled, not verified.")
@@ -13,13 +16,15 @@ CHECKS = {
     "C01": dict(
         text="Theorems C01.lower_contract/upper_contract/exact_contract (and their instances at the exact kernel model) prove true ≤ estimate ≤ per-row collision bound "
              "for EVERY history tree of adds and merges, every key, width, depth and hash, by induction over step contracts AddOK/MergeOK. The run re-checks the proofs, "
-             "evaluates the Lean contracts on the real code's before/after tables, the Lean query on real tables, and the bound on real estimates; all short histories are enumerated.",
+             "evaluates the Lean contracts on the real code's before/after tables, the Lean query on real tables, and the bound on real estimates; all short histories are enumerated."
+             + SRC + "",
         tech="Lean 4 proof (induction over history trees with decidable step contracts) + differential correspondence on real tables",
         ref="§4 C01"),
     "C02": dict(
         text="Theorems C02_setOnly/C02_fresh/C02_denote_* prove that the register file is the per-index maximum rank over the SET of keys for any history tree, any hash; "
              "nlz64_spec/rank_spec prove the branch-wise leading-zero count correct for all 64-bit inputs; merge is comm/assoc/idempotent. The run re-checks the proofs and "
-             "compares real registers with the full-stack Lean model (incl. FastHash) on histories with constructed high-rank keys.",
+             "compares real registers with the full-stack Lean model (incl. FastHash) on histories with constructed high-rank keys."
+             + SRC + "",
         tech="Lean 4 proof (denotational characterisation of registers) + full-stack differential correspondence",
         ref="§4 C02"),
     "C11": dict(
@@ -34,19 +39,22 @@ CHECKS.update({
     "C03": dict(
         text="Theorems cell_le_true/C03_getitem/C03_query prove, for every history tree, hash, width and depth, that every stored count is ≤ the true count of the stored key "
              "identity, hence hh[key] and every reported pair never over-count and a never-added key is never reported; padKey_inj proves (padded bytes, length) = identity. "
-             "The run re-checks the proofs, compares cells/answers with the model on NUL/length-sensitive keys and evaluates the oracle on real values; width-1 sequences enumerated.",
+             "The run re-checks the proofs, compares cells/answers with the model on NUL/length-sensitive keys and evaluates the oracle on real values; width-1 sequences enumerated."
+             + SRC + "",
         tech="Lean 4 proof (cell invariant by induction over history trees) + differential correspondence",
         ref="§4 C03"),
     "C04": dict(
         text="Theorems C04_phi/C04_getitem/C04_query/C04_major prove the Boyer-Moore potential bound 2f - W_r ≤ hh[key] for every history tree absent saturation (total weight ≤ 2^32-1), "
              "that query contains such a key, and that a strict-majority key is reported first, strictly ahead of all others. The run re-checks the proofs, compares with the model and "
-             "evaluates the bounds on real values for every key after every operation; width-1 orderings and partitions are enumerated.",
+             "evaluates the bounds on real values for every key after every operation; width-1 orderings and partitions are enumerated."
+             + SRC + "",
         tech="Lean 4 proof (potential-function invariant, super-additive under merge) + differential correspondence",
         ref="§4 C04"),
     "C13": dict(
         text="Theorems query_length/nodup/sorted/counts/prefix/complete characterise the answer; C13_fresh proves for EVERY sequence of add/merge/query/regenerate operations that the cached "
              "answer equals the answer recomputed from the current cells (invariant: cache valid or detectably stale). The run re-checks the proofs and compares every real answer "
-             "(cache hit and miss paths counted) with the model, with the model's fresh recomputation and with a freshly loaded real copy.",
+             "(cache hit and miss paths counted) with the model, with the model's fresh recomputation and with a freshly loaded real copy."
+             + SRC + "",
         tech="Lean 4 proof (cache-freshness invariant over operation sequences; sortedness/permutation lemmas) + differential correspondence",
         ref="§4 C13"),
 })
@@ -56,14 +64,16 @@ CHECKS.update({
         text="One-step theorems for EVERY state (not only reachable ones), key and multiplicity: lin_add_self/mono/bound/local/nadded for the linear kernel and logCounter_steps/exact/le_max, "
              "log_add_steps/exact/mono/bound/local/nadded for log8/log16 under ARBITRARY draws and an arbitrary decision function (only inc(0,u)=true assumed for exactness). "
              "The run re-checks the proofs, compares the real kernels with the exact models after every add (tables, n_added, consumed draws; draws placed by the harness) "
-             "and evaluates the one-step oracle on the real values.",
+             "and evaluates the one-step oracle on the real values."
+             + SRC + "",
         tech="Lean 4 proof (one-step theorems over all states, arbitrary draws) + differential correspondence with placed draws",
         ref="§4 C05"),
     "C06": dict(
         text="C06_lower/C06_exact prove estimate ≥ min(true, num_reserved+1) on every history (adds with arbitrary draws, merges by the nearest-counter specification) and exactness for "
              "collision-free keys; rand_fresh proves the t-th draw handed out is element t of the concatenated batches (never recycled, none skipped); step_unbias/chain_mean prove over an "
              "arbitrary field that the expected decoded value after n unit adds is true count + n until the ceiling, given P(rand < base^-c') = base^-c'. The run ties _log_counter/_rand to "
-             "the model with placed draws and a seeded Numba generator across refills.",
+             "the model with placed draws and a seeded Numba generator across refills."
+             + SRC + "",
         tech="Lean 4 proof (history invariants over log contracts; outcome-tree expectation over a field; _rand state machine) + correspondence with placed draws / seeded refills",
         note=TB + " PRNG uniformity/independence is an assumption; the Monte-Carlo comparison in the thorough tier is a refutation search, not part of the proof.",
         ref="§4 C06"),
@@ -71,14 +81,16 @@ CHECKS.update({
         text="Linear: lin_merge_cell/comm/empty/ge/query/books (saturating sum and its consequences). Log: nearest_spec, merge_reserved, merge_ceiling, merge_comm, merge_empty, merge_ge, "
              "nearest_ge for ANY decode that is linear up to num_reserved+1 and strictly increasing; decS_ok shows the exact scaled decode of the code's formula is one; nearestFast_eq ties the "
              "driver's evaluator to the specification. The run compares the real merge on ALL 256×256 log8 counter pairs (and 65536 + sampled log16 pairs) with the Lean float mirror, the Lean exact "
-             "specification and an independent exact oracle.",
+             "specification and an independent exact oracle."
+             + SRC + "",
         tech="Lean 4 proof (nearest-counter specification over exact scaled integers) + all-pairs differential correspondence",
         note=TB + " The code evaluates the log merge in float64; ties within 1e-9 of the gap between neighbouring decoded values accept either neighbour.",
         ref="§4 C09"),
     "C18": dict(
         text="lin_sticky (no estimate ever decreases under any sequence of adds and merges on either side; 2^32-1 is absorbing), counter_stop/log_add_sticky/log_merge_sticky for log counters, "
              "hh_alone (a key alone in its cells holds exactly min(true, 2^32-1)) for every history tree. The clause about _find_base (a float Newton iteration) is checked against its "
-             "specification |dec(max counter) - max_count| ≤ 1e-6·max_count or ValueError on a configuration grid — a test, labelled as such.",
+             "specification |dec(max counter) - max_count| ≤ 1e-6·max_count or ValueError on a configuration grid — a test, labelled as such."
+             + SRC + "",
         tech="Lean 4 proof (monotonicity/stickiness over operation sequences; exact cell content when alone) + correspondence near ceilings + find_base grid test",
         note=TB + " _find_base numerics are NOT proved (checked against a spec on a grid).",
         ref="§4 C18"),
@@ -145,7 +157,9 @@ CHECKS.update({
     "C08": dict(
         text="PARTIAL (runtime modelled). Proved for the queue protocol as a transition system, any number of workers ≥ 1, any capacity ≥ 1, EVERY interleaving: conservation (processed ++ queued ++ "
              "todo is a permutation of the items), exactly_once, no_deadlock, step_decreases (termination), done_stays; merging_tree/merging_some/merging_assoc (pairwise rounds = a merge tree over "
-             "the workers' sketches in order, odd counts included); records_total/ops_total/C08_hist (record counts and the multiset of operations equal the sequential stream's, so C01-C04 apply). "
+             "the workers' sketches in order, odd counts included); records_total/ops_total/C08_hist (record counts and the multiset of operations equal the sequential stream's); C08Compose: "
+             "C08_hll_result (the merged HyperLogLog IS the sequential one), C08_cms_bounds / C08_hh_bounds (C01 / C03 / C04 hold of the merged result w.r.t. the whole stream), "
+             "runActions_reach (traces validated by the driver are runs of the protocol). "
              "The run drives the REAL parallel_add code in-process over all small assignments and random valid protocol traces and compares results with sequential processing and the model.",
         tech="Lean 4 proof (protocol invariant over all interleavings, merge-tree characterisation) + exhaustive small-schedule correspondence on the real worker/merge code",
         note=TB + " NOT PROVED (runtime): OS scheduling, spawn/pickling, shared-memory coherence, the multiprocessing queue's FIFO/exactly-once contract (assumed).",
